@@ -759,6 +759,12 @@ func (self *Node) Set(key string, node Node) (bool, error) {
 
 	p := self.Get(key)
 
+	/* Exists() is false for an error node too: a syntax error met while looking for the key
+	 * must be reported, the node is not fully loaded then */
+	if p != nil && p.t == V_ERROR {
+		return false, p
+	}
+
 	if !p.Exists() {
 		// self must be fully-loaded here
 		if self.len() == 0 {
